@@ -385,7 +385,7 @@ fn c09_state_roundtrip_2actors_1version() {
 /// encode and decode in one harness exhausts the solver): every length prefix describes what follows
 ///   actor[16] | heads: u32 n, n x (actor[16], u64) | need: u64 n, n x (actor[16], u64 k, k x (u64,u64))
 ///   | partial_need: u64 n, n x (actor[16], u64 m, m x (u64 version, u64 k, k x (u64,u64))) | Option<ts>
-fn state_encode_layout(actors_with_partials: usize, versions_per_actor: usize) {
+fn state_encode_layout(actors_with_partials: usize, versions_per_actor: usize, symbolic_ranges: bool) {
     let a1 = ActorId(Uuid::from_bytes([1; 16]));
     let a2 = ActorId(Uuid::from_bytes([2; 16]));
     let mut st = SyncStateV1 { actor_id: ActorId(Uuid::from_bytes([9; 16])), ..Default::default() };
@@ -395,7 +395,7 @@ fn state_encode_layout(actors_with_partials: usize, versions_per_actor: usize) {
         let mut j = 0;
         while j < versions_per_actor {
             let mut seqs = Vec::new();
-            seqs.push(any_range_s());
+            seqs.push(if symbolic_ranges { any_range_s() } else { CrsqlSeq(j as u64)..=CrsqlSeq(7) });
             m.insert(CrsqlDbVersion(10 + j as u64), seqs);
             j += 1;
         }
@@ -445,13 +445,28 @@ fn state_encode_layout(actors_with_partials: usize, versions_per_actor: usize) {
 #[kani::unwind(10)]
 #[kani::stub(alloc::fmt::format, stub_format)]
 fn c09_state_encode_layout_1actor_2versions() {
-    state_encode_layout(1, 2);
+    state_encode_layout(1, 2, true);
 }
 #[kani::proof]
 #[kani::unwind(10)]
 #[kani::stub(alloc::fmt::format, stub_format)]
 fn c09_state_encode_layout_2actors_1version() {
-    state_encode_layout(2, 1);
+    state_encode_layout(2, 1, true);
+}
+
+/// the same layout check on concrete sequence ranges (only the COUNTS the prefixes must describe
+/// vary): cheap enough for the per-change tier
+#[kani::proof]
+#[kani::unwind(10)]
+#[kani::stub(alloc::fmt::format, stub_format)]
+fn c09_state_encode_prefixes_1actor_2versions() {
+    state_encode_layout(1, 2, false);
+}
+#[kani::proof]
+#[kani::unwind(10)]
+#[kani::stub(alloc::fmt::format, stub_format)]
+fn c09_state_encode_prefixes_2actors_1version() {
+    state_encode_layout(2, 1, false);
 }
 
 /// SqliteValue: every integer, every f64 bit pattern (NaN compared by bits), text / blob <= 2 bytes
